@@ -292,6 +292,8 @@ pub struct RunResult {
     /// switches actually taken, usable as an explicit schedule
     pub recorded: Vec<(u64, u32)>,
     pub harness_error: Option<String>,
+    /// the run could not be scheduled to the end (see the stall watchdog); no verdict
+    pub inconclusive: Option<String>,
 }
 
 impl RunResult {
@@ -349,6 +351,8 @@ struct State {
     slots: Vec<Option<Arc<SharedRes>>>,
     handles: Vec<Option<JoinHandle<()>>>,
     remaining: usize,
+    /// OS thread id of the thread currently running each client (for the stall watchdog)
+    tids: Vec<u32>,
 }
 
 struct Shared {
@@ -727,6 +731,7 @@ fn client_main(shared: Arc<Shared>, mut cs: ClientState) {
     } else {
         shared.wait_for_baton(me);
     }
+    shared.m.lock().unwrap().tids[me] = os_tid();
     let ctx = Rc::new(RefCell::new(OpCtx::default()));
     install_client_callback(&shared, me, &ctx);
     let script = &shared.scenario.clients[me];
@@ -1001,6 +1006,22 @@ fn do_read(shared: &Arc<Shared>, me: usize, op_idx: usize, slot: u8) {
 // ---------------------------------------------------------------- running a scenario
 
 pub const STALL_LIMIT: Duration = Duration::from_secs(30);
+
+/// OS thread id of the calling thread (Linux: /proc/thread-self -> "<pid>/task/<tid>").
+fn os_tid() -> u32 {
+    std::fs::read_link("/proc/thread-self")
+        .ok()
+        .and_then(|p| p.file_name().and_then(|f| f.to_str().and_then(|t| t.parse().ok())))
+        .unwrap_or(0)
+}
+
+/// Scheduler state letter of an OS thread of this process ('R' running, 'S' sleeping ...).
+fn os_thread_state(tid: u32) -> Option<char> {
+    let stat = std::fs::read_to_string(format!("/proc/self/task/{tid}/stat")).ok()?;
+    // "<tid> (<comm>) <state> ..."; comm may contain spaces and parentheses
+    let rest = &stat[stat.rfind(')')? + 1..];
+    rest.trim_start().chars().next()
+}
 const SPIN_ITERATIONS: u32 = 300;
 
 fn spin_iterations() -> u32 {
@@ -1075,6 +1096,7 @@ pub fn run_scenario(sc: &Scenario) -> RunResult {
         slots: vec![None; SHARED_SLOTS],
         handles: (0..n).map(|_| None).collect(),
         remaining: n,
+        tids: vec![0; n],
     };
     let shared = Arc::new(Shared {
         m: Mutex::new(state),
@@ -1103,6 +1125,7 @@ pub fn run_scenario(sc: &Scenario) -> RunResult {
             stats: st.stats.clone(),
             recorded: vec![],
             harness_error: None,
+            inconclusive: None,
         };
     }
     alloc::set_junk(sc.junk);
@@ -1121,6 +1144,7 @@ pub fn run_scenario(sc: &Scenario) -> RunResult {
     }
     // wait for completion with a stall watchdog
     let mut harness_error = None;
+    let mut inconclusive: Option<String> = None;
     {
         let mut st = shared.m.lock().unwrap();
         let mut last_seq = st.seq;
@@ -1133,7 +1157,23 @@ pub fn run_scenario(sc: &Scenario) -> RunResult {
                 last_change = Instant::now();
             } else if last_change.elapsed() > STALL_LIMIT {
                 let cur = st.current;
-                if st.in_lex[cur] {
+                // busy (state R over several samples) = a loop that reaches no hook: a hang of
+                // the lexer. Sleeping = the holder waits for something a parked client holds
+                // (a lock, a permit, a condition): the baton itself causes that, the lexer may
+                // be perfectly fine, so the run is abandoned as inconclusive.
+                let tid = st.tids[cur];
+                let mut running = 0;
+                for _ in 0..10 {
+                    if os_thread_state(tid) == Some('R') {
+                        running += 1;
+                    }
+                    std::thread::sleep(Duration::from_millis(20));
+                }
+                if st.in_lex[cur] && running < 8 {
+                    inconclusive = Some(format!(
+                        "client {cur} is blocked inside lex_program waiting for another, parked client (a lock or condition shared between calls); the baton cannot schedule that"
+                    ));
+                } else if st.in_lex[cur] {
                     // the baton holder is inside lex_program and reaches no hook: a hang
                     let (op, src) = (usize::MAX, usize::MAX);
                     st.violations.push(Violation {
@@ -1191,5 +1231,6 @@ pub fn run_scenario(sc: &Scenario) -> RunResult {
         stats: st.stats.clone(),
         recorded: std::mem::take(&mut st.recorded),
         harness_error,
+        inconclusive,
     }
 }
